@@ -101,6 +101,11 @@ def judge(ctx, what, jac, jac_q, data, weights, damping, params, pred_q, kernel_
     p_ref, s, cond, obj_ref = kernels.reference_fit(jac, data, w, damping)
     if not cond <= 1e10:
         ctx.skip("ill_conditioned")
+    if damping is not None and K * cond**2 * EPS > 1e-6:
+        # verde solves damped problems through the normal equations (scikit-learn's Ridge): its round-off grows with kappa squared, and a damped
+        # problem with kappa^2 eps of 1e-9 or more is not "well conditioned" for that solver - the same bound that decides whether predictions
+        # are compared (ASSUMPTIONS).  Met in the thorough tier on eight collinear data points with damping 1e-7 (kappa 1e6, excess 7e-8 relative).
+        ctx.skip("damped_ill_conditioned_for_the_normal_equations")
     params = np.asarray(params, dtype="float64")
     ctx.check(params.shape == (jac.shape[1],), "%s: %d parameters expected, got shape %s", what, jac.shape[1], params.shape)
     ww = np.ones(data.size) if w is None else w
